@@ -149,16 +149,20 @@ htp_status_t htp_conn_open(htp_conn_t *conn, const char *client_addr, int client
 htp_status_t htp_conn_remove_tx(htp_conn_t *conn, const htp_tx_t *tx) {
     if ((tx == NULL) || (conn == NULL)) return HTP_ERROR;
     if (conn->transactions == NULL) return HTP_ERROR;
-    // A transaction normally sits where its index says; looking there first keeps the
-    // removal of every transaction of a long connection from being a search of the
-    // whole list (the index dates from the creation of the transaction, recycled
-    // slots move later transactions down, hence the search below).
-    if ((tx->index < htp_list_size(conn->transactions)) && (htp_list_get(conn->transactions, tx->index) == tx)) {
-        return htp_list_replace(conn->transactions, tx->index, NULL);
+    size_t n = htp_list_size(conn->transactions);
+    if (n == 0) return HTP_DECLINED;
+    // A transaction sits where its index says, or below: the index dates from its
+    // creation and recycling slots with htp_connp_tx_freed() only moves transactions
+    // down. Searching downwards from there keeps the removal of every transaction
+    // of a long connection from being a search of the whole list.
+    size_t start = (tx->index < n) ? tx->index : n - 1;
+    for (size_t i = start + 1; i-- > 0;) {
+        if (htp_list_get(conn->transactions, i) == tx) {
+            return htp_list_replace(conn->transactions, i, NULL);
+        }
     }
-    for (size_t i = 0, n = htp_list_size(conn->transactions); i < n; i++) {
-        htp_tx_t *tx2 = htp_list_get(conn->transactions, i);
-        if (tx2 == tx) {
+    for (size_t i = start + 1; i < n; i++) {
+        if (htp_list_get(conn->transactions, i) == tx) {
             return htp_list_replace(conn->transactions, i, NULL);
         }
     }
